@@ -289,8 +289,100 @@ pub fn run(run: &mut Run) {
     ilv_part(run, quick);
     let capped = run.coverage.get("ilv_configs_capped").and_then(|v| v.as_u64()).unwrap_or(0);
     run.cov("exhaustive", json!(ex && capped == 0));
-    run.assume("in-process sessions run the same unwatch-all + Client::left pair that the TCP, HTTP and WebSocket handlers run at connection end; the transports' own end-of-connection paths are exercised in C20 (HTTP) and the transport stage");
+    transports(run);
+    run.assume("in-process sessions run the same unwatch-all + Client::left pair that the TCP, HTTP and WebSocket handlers run at connection end; the real TCP server (half-close) and the real HTTP server (request end) are driven with every connect/use-db sequence of up to 3 selections; WebSocket close is not driven (no client in the harness)");
     run.assume("a constant watcher session on t is counted in the expected value");
 }
 
 use crate::seq::explore as explore_seq;
+
+
+/// the real TCP and HTTP servers: every sequence of up to 3 use-db commands, then the transport's
+/// own end-of-connection path; $connections must be back where it was
+fn transports(run: &mut Run) {
+    let node = Node::new_single("c17-net");
+    let mut admin = Session::new();
+    admin.exec(&node, &format!("auth {} {}", USER, PWD));
+    admin.exec(&node, "create-db t tok none");
+    admin.exec(&node, "create-db u tok2 none");
+    admin.exec(&node, "use-db t tok");
+    admin.exec(&node, "create-user bob bt");
+    let _ = admin.disconnect(&node);
+    let tcp = crate::tcp::TcpServer::start(node.dbs.clone());
+    let http = crate::http::HttpServer::start(node.dbs.clone());
+    let cmds = ["use-db t tok", "use-db u tok2", "use-db t nope", "use-db t bob bt", "use-db t bob nope"];
+    let mut seqs: Vec<Vec<&str>> = vec![vec![]];
+    for len in 1..=3 {
+        let mut idx = vec![0usize; len];
+        loop {
+            seqs.push(idx.iter().map(|i| cmds[*i]).collect());
+            let mut p = len;
+            while p > 0 {
+                p -= 1;
+                idx[p] += 1;
+                if idx[p] < cmds.len() {
+                    break;
+                }
+                idx[p] = 0;
+                if p == 0 {
+                    p = usize::MAX;
+                    break;
+                }
+            }
+            if p == usize::MAX {
+                break;
+            }
+        }
+    }
+    let count = |db: &str| (counter_key(&node, db).and_then(|k| k.parse::<i64>().ok()).unwrap_or(0), counter_field(&node, db) as i64);
+    let mut n = 0u64;
+    for sq in seqs.iter() {
+        for transport in ["tcp", "http"] {
+            n += 1;
+            let before = (count("t"), count("u"));
+            let mid;
+            if transport == "tcp" {
+                let mut c = tcp.connect();
+                for l in sq.iter() {
+                    c.cmd(l);
+                }
+                mid = (count("t"), count("u"));
+                if !c.close_and_wait() {
+                    run.violate(Violation { clause: "disconnect-failed".into(), shape: format!("{}: {}", transport, sq.join(" ; ")), detail: "the server did not finish its end-of-connection path".into(), replay: json!({"engine":"transport","transport":transport,"commands":sq}) });
+                    continue;
+                }
+            } else {
+                let body = sq.join(";");
+                if http.post(&body).is_err() {
+                    run.violate(Violation { clause: "disconnect-failed".into(), shape: format!("{}: {}", transport, sq.join(" ; ")), detail: "http request failed".into(), replay: json!({"engine":"transport","transport":transport,"commands":sq}) });
+                    continue;
+                }
+                mid = before;
+            }
+            // while open (tcp): the database of the last successful selection counts one more
+            if transport == "tcp" {
+                let mut sel: Option<&str> = None;
+                for l in sq.iter() {
+                    match *l {
+                        "use-db t tok" | "use-db t bob bt" => sel = Some("t"),
+                        "use-db u tok2" => sel = Some("u"),
+                        _ => {}
+                    }
+                }
+                let want_t = before.0 .0 + (sel == Some("t")) as i64;
+                let want_u = before.1 .0 + (sel == Some("u")) as i64;
+                if mid.0 .0 != want_t || mid.1 .0 != want_u || mid.0 .1 != want_t || mid.1 .1 != want_u {
+                    run.violate(Violation { clause: "connection-count-wrong".into(), shape: format!("{} (open): {}", transport, sq.join(" ; ")), detail: format!("while the connection is open: t {:?} u {:?}, expected {} / {}", mid.0, mid.1, want_t, want_u), replay: json!({"engine":"transport","transport":transport,"commands":sq}) });
+                }
+            }
+            let after = (count("t"), count("u"));
+            if after != before {
+                run.violate(Violation { clause: "connection-count-not-restored".into(), shape: format!("{}: {}", transport, sq.join(" ; ")), detail: format!("before {:?}, after the connection ended {:?}", before, after), replay: json!({"engine":"transport","transport":transport,"commands":sq}) });
+            }
+        }
+    }
+    run.cov("transport_sessions", json!(n));
+    run.cov_add("states", n);
+    run.cov_add("transitions", n);
+    node.remove_dir();
+}
